@@ -23,8 +23,10 @@ def run(ctx: Ctx):
                        "integers, never as floats"]
     mc = tlc.run_tlc("MC_Xmap", "MC_Xmap.cfg", ctx.workdir, workers=6)
     ctx.add_model("MC_Xmap", mc)
+    mcf = tlc.run_tlc("MC_Fragments", "MC_Fragments.cfg", ctx.workdir, workers=6)
+    ctx.add_model("MC_Fragments", mcf)
     ctx.exhaustive = True
-    res = pipe_common.explore(ctx, 32 if quick else 500, n_qry=12, salt=2)
+    res = pipe_common.explore(ctx, 32 if quick else 500, n_qry=12, salt=2, keep_rows=True)
     lines, out, r = pipe_common.validate_records(ctx, res, "C02")
     for ln in lines:
         if ln["rec"]["ori"] == "-" or ln["rec"]["rest"] == "True":
@@ -41,6 +43,21 @@ def run(ctx: Ctx):
                                              f"rest={ln['rec']['rest']}")
         elif drift and not allf:
             ctx.add_drift(1, {"tag": ln["tag"], "drift": drift})
+    # ---- where second-pass label numbers come from: getUnalignedFragments of every first-pass row (Fragments.tla)
+    from lib import batch
+    flines = [ln for r_ in res for ln in r_["summary"].get("fragment_lines", [])]
+    if flines:
+        v2, r2 = batch.validate("Trace_Fragments", "Trace_Fragments.cfg", ctx.workdir,
+                                [{k: v for k, v in ln.items() if k != "tag"} for ln in flines], name="frag.ndjson")
+        ctx.add_traces(len(flines))
+        ctx.notes["fragments"] = {"first_pass_rows": len(flines), "rows_with_fragments": sum(1 for ln in flines if ln["obs"]),
+                                  "rows_with_two_fragments": sum(1 for ln in flines if len(ln["obs"]) == 2)}
+        for tid, (failed, drift) in sorted(v2.items()):
+            if failed:
+                ctx.violation(flines[tid], ["C02:" + c for c in failed], "", what=f"{flines[tid]['tag']} row={flines[tid]['row']} obs_shifts={[o['shift'] for o in flines[tid]['obs']]}")
+            elif drift:
+                ctx.add_drift(1, {"tag": flines[tid]["tag"], "row": flines[tid]["row"], "drift": drift,
+                                  "obs": [(o["shift"], len(o["x"])) for o in flines[tid]["obs"]]})
     for ln in [x for x in lines if x["rec"]["rest"] == "True"][:1] + lines[:1]:
         ctx.sample({"rec": {k: v for k, v in ln["rec"].items() if k not in ("hit",)},
                     "qry_x_first_last": [ln["qry"]["x"][0], ln["qry"]["x"][-1]] if ln["qry"]["x"] else [],
